@@ -164,6 +164,8 @@ def make_call(rng, entry):
     else:
         if rng.random() < 0.5:
             call['out_sim_score'] = rng.random() < 0.5
+    if rng.random() < 0.1:
+        call['show_progress'] = True
     if entry in T.JOINS:
         call['api'] = entry
         call['allow_missing'] = rng.random() < 0.8
